@@ -959,11 +959,7 @@ impl<P: RuntimeProvider + Send + Sync> SqliteZoneHandler<P> {
                         info!("deleted ({deleted}) specific record: {rr:?}");
                         updated = updated || deleted;
 
-                        if deleted && rrset_clone.is_empty() {
-                            // an RRset without RRs does not exist: drop the entry, otherwise it
-                            // keeps blocking e.g. a later CNAME at this name
-                            records.remove(&rr_key);
-                        } else if deleted {
+                        if deleted {
                             *rrset = Arc::new(rrset_clone);
                         }
 
